@@ -29,7 +29,10 @@ func genWriteNoHLL(r *hx.Rng) [][]byte {
 //	RestoreFromSnapshot(term, i); dump D'
 //
 // Judged only on the final dumps: D' = D. Returns trials, number of bad trials, first bad trial.
-func interleave(eng string, trials int, seed int64) (int, int, int, error) {
+// junkFiles > 0: that many empty files are put into the engine's data directory before every trial
+// (a restore removes them): they stand in for a very large number of sst files and make the
+// engine's directory listing slow (demonstration of the rocksdb 20 ms timer, known finding K1R).
+func interleave(eng string, trials int, seed int64, junkFiles int) (int, int, int, error) {
 	dir, err := os.MkdirTemp("", "verif-ckpt-il-")
 	if err != nil {
 		return 0, 0, -1, err
@@ -46,6 +49,13 @@ func interleave(eng string, trials int, seed int64) (int, int, int, error) {
 	marker := []byte("t0:marker")
 	cnt := []byte("t0:ilcounter")
 	for t := 0; t < trials; t++ {
+		if n := junkFiles; n > 0 {
+			// experiment: a data directory with very many files (stands in for very many sst files);
+			// a restore removes them, so they are put back before every trial
+			for k := 0; k < n; k++ {
+				os.WriteFile(fmt.Sprintf("%s/zz-junk-%07d.tmp", st.db().GetDataDir(), k), nil, 0644)
+			}
+		}
 		var cmds [][][]byte
 		for k := 1 + r.Pick(5); k > 0; k-- {
 			cmds = append(cmds, genWriteNoHLL(r))
